@@ -765,6 +765,12 @@ func ruleR078(c *Ctx) {
 			if lit, ok := ast.Unparen(call.Fun).(*ast.FuncLit); ok && c.startsWithRecoveringDefer(pkg, lit.Body) {
 				return true
 			}
+			// the same idiom as a named function or method of the package (e.try(st, cs))
+			if cal := Callee(info, call); cal != nil && cal.Pkg() == pkg.Types {
+				if hd := findFuncDecl(pkg, cal); hd != nil && hd.Body != nil && c.startsWithRecoveringDefer(pkg, hd.Body) {
+					return true
+				}
+			}
 			for _, l := range as.Lhs {
 				if id, ok := l.(*ast.Ident); ok && id.Name != "_" {
 					if o := info.ObjectOf(id); o != nil && isErrorType(o.Type()) {
